@@ -3,7 +3,7 @@ from pyvc.contracts import contract, T
 from .shapes_geonet import *
 
 S = dict(mode="bv", spec_module="spec_geonet")
-P = ["C02", "C01"]
+P = ["C02", "C01", "C06"]
 DE = "flexstack.geonet.exceptions:DecodeError"
 
 contract(f"{GBCH}:GBCExtendedHeader.encode", returns=T.bytes_n(44), props=P + ["C07"], shapes={"self": GBC}, requires=["gbc_valid(self)"],
